@@ -11,59 +11,15 @@ import (
 
 func init() { register("C07", "model_checking", checkC07) }
 
-// graphProgram builds a program from a digraph: adj[i] lists the nodes node i depends on.
-// kinds[i]: 0 function provider, 1 struct provider (edges are fields), 2 field provider
-// (T_i is selected from a holder struct built from i's dependencies), 3 interface
-// bound to a concrete type built from i's dependencies.
-// inSet: the items live in a named set referenced by the injector; otherwise they are direct Build arguments.
+// graphProgram builds a program from a digraph: adj[i] lists the nodes node i depends on;
+// kinds[i] is a node source kind of graph.go (NFunc, NStruct, NField, NBound).
 func graphProgram(n int, adj [][]int, kinds []int, root int, inSet bool) *ir.Program {
-	b := ir.NewBuilder()
-	p := b.Root
-	types := make([]*ir.Type, n) // the type other nodes depend on
-	for i := 0; i < n; i++ {
-		name := fmt.Sprintf("T%d", i)
-		switch kinds[i] {
-		case 1:
-			types[i] = ir.Ptr(b.Agg(p, name)) // consumers depend on *T_i so that cyclic shapes stay legal Go types
-		case 3:
-			types[i] = b.Iface(p, name)
-		default:
-			types[i] = b.Leaf(p, name)
-		}
+	g := &GraphSpec{N: n, Adj: adj, Nodes: make([]NodeSpec, n), Root: root, InSet: inSet}
+	for i, k := range kinds {
+		g.Nodes[i].Kind = k
 	}
-	var items []*ir.Item
-	for i := 0; i < n; i++ {
-		var deps []*ir.Type
-		for _, j := range adj[i] {
-			deps = append(deps, types[j])
-		}
-		switch kinds[i] {
-		case 0:
-			items = append(items, ir.FuncItem(&ir.Func{Pkg: p, Name: fmt.Sprintf("P%d", i), Params: deps, Out: types[i]}))
-		case 1:
-			agg := types[i].Elem
-			for k, j := range adj[i] {
-				agg.Fields = append(agg.Fields, &ir.Field{Name: fmt.Sprintf("F%d", j), T: deps[k]})
-			}
-			items = append(items, ir.StructItem(agg, "*"))
-		case 2:
-			holder := b.Agg(p, fmt.Sprintf("H%d", i), &ir.Field{Name: "F", T: types[i]})
-			items = append(items, ir.FuncItem(&ir.Func{Pkg: p, Name: fmt.Sprintf("PH%d", i), Params: deps, Out: holder}))
-			items = append(items, ir.FieldsOfItem(holder, false, "F"))
-		case 3:
-			conc := b.Leaf(p, fmt.Sprintf("C%d", i))
-			conc.Impls = []*ir.Type{types[i]}
-			items = append(items, ir.FuncItem(&ir.Func{Pkg: p, Name: fmt.Sprintf("PC%d", i), Params: deps, Out: conc}))
-			items = append(items, ir.BindItem(types[i], conc))
-		}
-	}
-	inj := &ir.Injector{Name: "Init", Out: types[root]}
-	if inSet {
-		inj.Items = []*ir.Item{ir.SetRef(&ir.Set{Pkg: p, Name: "Set", Items: items})}
-	} else {
-		inj.Items = items
-	}
-	return &ir.Program{Root: p, Injectors: []*ir.Injector{inj}}
+	prog, _ := g.Build()
+	return prog
 }
 
 func adjFromMask(n int, mask uint64) [][]int {
